@@ -26,10 +26,21 @@ DOCS = [
 VALUES = {"default": 2.5, "o": 0.5, "w": 7.0, "h": 5.0, "s": 1.5, "r": 3.0}
 
 
+def _setops(name, tree):
+    """also route C-level set algebra (dict views, set operators) through the order-aware set"""
+    return loader.SetOpRewriter().visit(tree)
+
+
+def template_of(name):
+    if name.startswith("unsupported:"):
+        return pool.UNSUPPORTED[name.split(":", 1)[1]]
+    return pool.family_templates("thorough")[name]
+
+
 def concrete_doc(name):
     import re
 
-    t = pool.family_templates("thorough")[name]
+    t = template_of(name)
 
     def sub(m):
         n = m.group(1)
@@ -69,7 +80,7 @@ def run_order_case(name, kw):
             src = instantiate(h, template, vals)
             ctx.opts["set_order_site"] = -1
             ctx.set_events = 0
-            m0 = loader.load(fake_skia=True)
+            m0 = loader.load(fake_skia=True, extra_ast=_setops)
             try:
                 out0 = convert_with(m0, src, **kw)
             finally:
@@ -79,7 +90,7 @@ def run_order_case(name, kw):
                 return out0
             ctx.opts["set_order_site"] = site
             ctx.set_events = 0
-            m1 = loader.load(fake_skia=True)
+            m1 = loader.load(fake_skia=True, extra_ast=_setops)
             try:
                 out1 = convert_with(m1, src, **kw)
             finally:
@@ -142,13 +153,13 @@ def run_history_sym_case(name, vary):
             h.assume(h.not_(h.eq(v, vals_a[vary])))  # B really differs from A
         src_a = instantiate(h, template, vals_a)
         src_b = instantiate(h, template, vals_b)
-        m1 = loader.load(fake_skia=True)
+        m1 = loader.load(fake_skia=True, extra_ast=_setops)
         try:
             convert_with(m1, src_a)
             out_after = convert_with(m1, src_b)
         finally:
             loader.unload(m1)
-        m2 = loader.load(fake_skia=True)
+        m2 = loader.load(fake_skia=True, extra_ast=_setops)
         try:
             out_fresh = convert_with(m2, src_b)
         finally:
@@ -182,6 +193,8 @@ def cases(tier, seed):
         cs.append({"kind": "order", "doc": d, "kw": {}})
     cs.append({"kind": "order", "doc": "special:comment_pi_foreign", "kw": {"drop_unsupported": True}})
     cs.append({"kind": "order_error_message", "doc": "unsupported:text"})
+    # text passes through verbatim with allow_text: attribute order of pushed-down attributes shows
+    cs.append({"kind": "order", "doc": "unsupported:text_in_group", "kw": {"allow_text": True}})
     for a, b in itertools.permutations(DOCS, 2):
         cs.append({"kind": "history", "a": a, "b": b})
     for d in DOCS:
@@ -329,7 +342,7 @@ def replay(case, failure):
     if failure.get("inputs"):
         # numbers of the solver's witness
         import fractions, re as _re
-        tpl = pool.UNSUPPORTED["text"] if case["kind"] == "order_error_message" else pool.family_templates("thorough")[case["doc"]]
+        tpl = pool.UNSUPPORTED["text"] if case["kind"] == "order_error_message" else template_of(case["doc"])
         text = _re.sub(r"\{([A-Za-z_][A-Za-z0-9_]*)\}", lambda m: "" if m.group(1) == "rootattrs" else repr(float(fractions.Fraction(failure["inputs"].get(m.group(1), "2.5")))), tpl)
     kw = case.get("kw", {})
     code = (
